@@ -134,6 +134,15 @@ CHECKS = {
              "file systems reject offsets beyond their maximum file size while in-memory readers accept them, so path- and reader-based detection legitimately differ there (observed, documented in DESIGN.md). "
              "What happens after a file is classified as one of the formats is outside this property.",
     ),
+    "C18": dict(
+        technique="Lean 4 proof (value_at_idx / value_at_time = latest change at or before, on top of the proved get_offset model; Python index conventions) + differential run through the real extension module under CPython",
+        text="Lean theorems C18_valueAtIdx_none, C18_valueAtIdx_latest, C18_valueAtTime_index, C18_py_index about the model of pywellen's Signal.value_at_idx / value_at_time / TimeTable.__getitem__ "
+             "(built on the C05 theorems). pywellen is built from /repo, loaded into CPython and queried on generated VCDs for every variable: all_changes(), value_at_idx for every index 0..len+1, "
+             "value_at_time around every table entry and beyond, negative time-table indices; compared with the Lean model and the latest-at-or-before specification evaluated on the Rust-side change list.",
+        design_ref="DESIGN.md section 5 / C18",
+        note="Partial by nature: pyo3 marshalling (BigUint -> int, Option -> None, str, f64) is trusted and validated through CPython only. all_changes is modelled but its theorem is the C05 position-by-position agreement. "
+             "Two defects were repaired (F16, F17). Requires python3 with the CPython ABI pywellen was built for (the sandbox's python3).",
+    ),
 }
 
 NOT_YET = "check not built yet in this round (machinery under construction; see DESIGN.md section 10 for the order of work)"
